@@ -29,7 +29,7 @@ REJECT_STATUSES = ("ERROR_INVALID_VALUE", "ERROR_OUT_OF_MEMORY", "ERROR_INVALID_
 class Run:
     """One write_config() call against a config store."""
 
-    def __init__(self, version, current, overrides, reject, first=None):
+    def __init__(self, version, current, overrides, reject, first=None, first_current=None, poller=False):
         import bellows.types as t
 
         self.t = t
@@ -69,13 +69,30 @@ class Run:
         if first is not None:
             # an earlier configuration write on the SAME EZSP object (e.g. before a reset), with other overrides; the NCP's values
             # are then put back, so that the write under test can be compared with the same write on a fresh object
+            if first_current is not None:
+                self.current = dict(first_current)      # what the NCP reported during that earlier write
             t0 = self.loop.create_task(self.ezsp.write_config(dict(first)))
             self.loop.run_until_idle(horizon=600.0)
             if not t0.done():
                 t0.cancel()
             self.sets.clear()
             self.current = dict(current)
-        self.task = self.loop.create_task(self.ezsp.write_config(dict(overrides)))
+        self.polled = []
+        if poller:
+            # another coroutine reads configuration values (keyword form, as load_network_info does) while the write is going on
+            async def poll():
+                ids = [t.EzspConfigId.CONFIG_SECURITY_LEVEL, t.EzspConfigId.CONFIG_STACK_PROFILE]
+                for k in range(400):
+                    if self.task.done():
+                        break
+                    cid = ids[k % 2]
+                    st, val = await self.ezsp.getConfigurationValue(configId=cid)
+                    self.polled.append((cid.name, int(val), self.current.get(cid.name, 0)))
+
+            self.task = self.loop.create_task(self.ezsp.write_config(dict(overrides)))
+            self.poll_task = self.loop.create_task(poll())
+        else:
+            self.task = self.loop.create_task(self.ezsp.write_config(dict(overrides)))
         self.loop.run_until_idle(horizon=600.0)
         self.exc = None
         self.hung = not self.task.done()
@@ -209,6 +226,30 @@ def run_version(args):
                         viol.append((f"C16|history|{'disabled' if first[name] is None else 'set'}-then-{'default' if not second else 'override'}",
                                      f"v{version}: write_config({second}) after an earlier write_config({first}) on the same EZSP object differs from the same call on a fresh "
                                      f"object: {again.exc!r} {diff}", {"version": version, "current": cur, "overrides": second, "reject": {}, "first": first}))
+    # ... after an earlier write during which the NCP could not report the setting (it can now, and reports more than the default)
+    for name in [n for n in names if n in CAPACITY][:6]:
+        ref = libval.get(name, 8)
+        cur = {name: ref + 40}
+        stats["runs"] += 1
+        fresh = Run(version, cur, {}, {})
+        again = Run(version, cur, {}, {}, first={}, first_current={name: None})
+        a = [(x[0], x[1], x[2]) for x in again.sets]
+        b = [(x[0], x[1], x[2]) for x in fresh.sets]
+        if again.hung or again.exc is not None or a != b:
+            diff = [x for x in a if x not in b][:3] + [("missing",) + x for x in b if x not in a][:3]
+            viol.append(("C16|history|unreadable-then-readable", f"v{version}: write_config() with {name} reported as {ref + 40}, after an earlier write on the same EZSP object "
+                         f"during which the NCP could not report it, differs from the same call on a fresh object: {again.exc!r} {diff}",
+                         {"version": version, "current": cur, "overrides": {}, "reject": {}, "first": {}, "first_current": {name: None}}))
+        # ... and with another coroutine polling configuration values meanwhile
+        stats["runs"] += 1
+        polled = Run(version, cur, {}, {}, poller=True)
+        a = [(x[0], x[1], x[2]) for x in polled.sets]
+        wrong = [x for x in polled.polled if x[1] != x[2]]
+        if polled.hung or polled.exc is not None or a != b or wrong:
+            diff = [x for x in a if x not in b][:3] + [("missing",) + x for x in b if x not in a][:3]
+            viol.append(("C16|concurrent-reader", f"v{version}: write_config() with {name} reported as {ref + 40} while another coroutine reads configuration values differs from the "
+                         f"undisturbed write: {polled.exc!r} {diff} {('reader got ' + str(wrong[:2])) if wrong else ''}",
+                         {"version": version, "current": cur, "overrides": {}, "reject": {}, "poller": True}))
     # pairs over interesting settings
     interesting = [n for n in (BUFFER, "CONFIG_KEY_TABLE_SIZE", "CONFIG_BINDING_TABLE_SIZE", "CONFIG_MULTICAST_TABLE_SIZE",
                                "CONFIG_SECURITY_LEVEL", "CONFIG_NEIGHBOR_TABLE_SIZE") if n in names]
@@ -272,11 +313,18 @@ def replay(data) -> int:
     cur = {k: v for k, v in data["current"].items()}
     if data.get("first") is not None:
         fresh = Run(data["version"], cur, data["overrides"], {})
-        again = Run(data["version"], cur, data["overrides"], {}, first=data["first"])
+        again = Run(data["version"], cur, data["overrides"], {}, first=data["first"], first_current=data.get("first_current"))
         a, b = [x[:3] for x in again.sets], [x[:3] for x in fresh.sets]
         print("fresh:", b)
         print("after", data["first"], ":", a, repr(again.exc))
         return 1 if (a != b or again.exc is not None or again.hung) else 0
+    if data.get("poller"):
+        fresh = Run(data["version"], cur, data["overrides"], {})
+        polled = Run(data["version"], cur, data["overrides"], {}, poller=True)
+        a, b = [x[:3] for x in polled.sets], [x[:3] for x in fresh.sets]
+        print("undisturbed:", b)
+        print("with a concurrent reader:", a, repr(polled.exc), [x for x in polled.polled if x[1] != x[2]][:3])
+        return 1 if (a != b or polled.exc is not None or polled.hung or any(x[1] != x[2] for x in polled.polled)) else 0
     r = Run(data["version"], cur, data["overrides"], data["reject"])
     b = Run(data["version"], cur, data["overrides"], {}) if data["reject"] else None
     for s in r.sets:
